@@ -139,7 +139,7 @@ def _limit_endpoint(
     d_end = torch.where(mask_sign_change, torch.zeros_like(d_end), d_end)
 
     # If secants switch sign, cap magnitude to 3*|s_l|
-    mask_sign_change = s_l * s_r < 0
+    mask_sign_change = torch.sign(s_l) * torch.sign(s_r) < 0
     mask_cap = mask_sign_change & (torch.abs(d_end) > 3.0 * torch.abs(s_l))
     return torch.where(mask_cap, 3.0 * s_l, d_end)
 
@@ -171,7 +171,8 @@ def _pchip_derivatives(
     delta_l, delta_r = delta[:-1], delta[1:]
     h_l, h_r = h[:-1], h[1:]
 
-    mask_same_sign = (delta_l * delta_r) > 0  # excludes zeros + sign changes
+    # compare signs, not the product: the product of two tiny secants underflows to 0
+    mask_same_sign = (torch.sign(delta_l) * torch.sign(delta_r)) > 0  # excludes zeros + sign changes
     # Masked knots get harmless secants BEFORE the division: dividing by a zero
     # secant (flat segment) or by w_l/delta_l + w_r/delta_r == 0 (symmetric peak)
     # and masking afterwards gives 0 * inf = nan in the backward pass.
